@@ -311,4 +311,9 @@ func planSummary(p *Plan) any {
 	return out
 }
 
-func main() { sim.Main(engine{}) }
+func main() {
+	// outside the scheduled phase of C15 the whole world runs on this one
+	// goroutine: a handler that finds a lock taken has deadlocked with itself
+	verifrt.SequentialWorld = true
+	sim.Main(engine{})
+}
